@@ -180,6 +180,11 @@ func (fc *FnCtx) pointClausesV(st *State, kind, anchor string, pos token.Pos, va
 		}
 		stmt := strings.TrimSpace(c.Text[len(anchor)+1:])
 		word, rest := splitWord(stmt)
+		var only []string
+		if i := strings.Index(word, "@"); i > 0 {
+			only = strings.Split(word[i+1:], ",")
+			word = word[:i]
+		}
 		env := &specEnv{fc: fc, st: st, old: fc.entry, vars: map[string]Val{}, entry: fc.params, localFn: fc.curFn}
 		if vars != nil {
 			env.vars = copyVars(vars)
@@ -307,7 +312,12 @@ func (fc *FnCtx) pointClausesV(st *State, kind, anchor string, pos token.Pos, va
 			}
 			g := fc.evalBool(env, &Clause{Text: rest, Expr: ex, Pos: c.Pos})
 			if word == "assert" {
+				fc.obProps = only
 				fc.oblige(st, "assert", g, pos, rest)
+				fc.obProps = nil
+				if only != nil {
+					continue // a property-scoped assertion is checked, never assumed: it must not help other obligations
+				}
 			} else {
 				fc.note("ASSUMED (not proved) at %s: %s", anchor, rest)
 			}
@@ -443,6 +453,7 @@ func (fc *FnCtx) havocAll(st *State) {
 	na := fc.sc.Fresh("alloc", "Int")
 	fc.assume(st, app(">=", na, st.alloc))
 	st.alloc = na
+	st.pending = append(st.pending, pendHavoc{"all", "", len(fc.hvOrder)})
 }
 
 func (fc *FnCtx) execBuiltin(st *State, b *ssa.Builtin, args []Val, rty types.Type, pos token.Pos) (Val, bool) {
@@ -712,6 +723,7 @@ func (fc *FnCtx) havocTarget(st *State, env *specEnv, a *AssignTarget) {
 				st.heap[k] = fc.sc.Fresh(h.name, h.sort)
 			}
 		}
+		st.pending = append(st.pending, pendHavoc{"except", a.Name, len(fc.hvOrder)})
 	case "ghost":
 		k := fc.ghostKey(a.Name)
 		st.heap[k] = fc.sc.Fresh(fc.hv[k].name, fc.hv[k].sort)
@@ -720,6 +732,7 @@ func (fc *FnCtx) havocTarget(st *State, env *specEnv, a *AssignTarget) {
 		for _, k := range fc.keysMatching(a.Name) {
 			st.heap[k] = fc.sc.Fresh(fc.hv[k].name, fc.hv[k].sort)
 		}
+		st.pending = append(st.pending, pendHavoc{"pat", a.Name, len(fc.hvOrder)})
 	case "loc":
 		// a single location x.f / *p / s[i]: evaluate as an lvalue in the pre-state
 		ad := fc.evalLvalue(env, a.Expr)
@@ -815,7 +828,7 @@ func (fc *FnCtx) assumeTypeInvLater(st *State, ty types.Type, v string) {
 func (fc *FnCtx) keysMatching(pat string) []string {
 	var res []string
 	for _, k := range fc.hvOrder {
-		if k == pat || strings.HasSuffix(k, "|"+pat) {
+		if keyMatches(pat, k) {
 			res = append(res, k)
 		}
 	}
